@@ -126,6 +126,13 @@ CHECKS = {
         note="Determinism is decided on the sampled inputs and seeds; injection granularity is one Python line of batchie code.",
         technique="differential (run twice) monitor + global-RNG state snapshots + line-granular injection of unrelated global draws",
     ),
+    "C04": dict(
+        cat="exploration",
+        text="Non-interference decided on pairs of executions: two screens that differ only behind the mask (random, 0, 1, NaN, -1, 1e300) go through the real train -> distance chunks -> score chunks -> select path (both MCMC models, four scorers, chunk counts, batches, policy; thorough: the four CLI mains on files) with identical seeds and every artefact is compared byte-wise; a monitor on add_observations compares the sampler's training arrays with the documented row set and transform; refusal cases for masked rows, negative and NaN input.",
+        ref="4/C04",
+        note="Pairs are explored, not enumerated; the interaction model's transform is pinned to its current formula; observed 0/1 excluded for it.",
+        technique="paired-execution differential (non-interference) monitor + training-set post-condition on add_observations",
+    ),
 }
 
 NOT_BUILT_REASON = "check not built yet in this revision (planned, see DESIGN.md section 4)"
